@@ -179,6 +179,62 @@ pub fn run(toks: &[&str]) -> String {
                 if bad.is_empty() { format!("swept variants={} mounted={}",n,mounted) } else { format!("PANICKED {}",bad.join("; ")) }
             }).replacen("ok PANICKED","FAIL panic:",1)
         },
+        "tokfields" => {
+            // malform id tokfields seed lang : a representative tokenized program; every byte set to each boundary value, every prefix
+            // (truncation), and the RAM-image entry points with every pointer value class; the detokenizer must return each time
+            let lang = toks[4].to_string();
+            with_watchdog_secs(120,move || {
+                let src_a = "10 REM HELLO\n20 PRINT \"A:B\";X$(1):DATA 1,\"Q\",Z: GOTO 10\n30 IF A>=1.5E3 THEN 20\n40 CALL -936:HLIN 1,2AT3\n";
+                let src_i = "10 REM HELLO\n20 PRINT \"A:B\";X$(1): GOTO 10\n30 IF A>=15 THEN 20\n40 CALL -936: DIM A$(20)\n";
+                let src_m = "* COMMENT\nSTART LDA #$00 ; C\n ASC \"HI\",8D\n STA $C000,X\n";
+                let base: Vec<u8> = match lang.as_str() {
+                    "applesoft" => a2kit::lang::applesoft::tokenizer::Tokenizer::new().tokenize(src_a,0x801).expect("tokenize"),
+                    "integer" => a2kit::lang::integer::tokenizer::Tokenizer::new().tokenize(src_i.to_string()).expect("tokenize"),
+                    _ => a2kit::lang::merlin::tokenizer::Tokenizer::new().tokenize(src_m.to_string()).expect("tokenize")
+                };
+                let run = |b: &Vec<u8>| -> bool {
+                    catch_unwind(AssertUnwindSafe(|| {
+                        match lang.as_str() {
+                            "applesoft" => { let _ = a2kit::lang::applesoft::tokenizer::Tokenizer::new().detokenize(b); },
+                            "integer" => { let _ = a2kit::lang::integer::tokenizer::Tokenizer::new().detokenize(b); },
+                            _ => { let _ = a2kit::lang::merlin::tokenizer::Tokenizer::new().detokenize(b); }
+                        }
+                    })).is_ok()
+                };
+                let mut bad: Vec<String> = Vec::new();
+                let mut n = 0;
+                for pos in 0..base.len() {
+                    for v in [0u8,1,2,0x20,0x22,0x7f,0x80,0xb2,0xff] {
+                        let mut b = base.clone(); b[pos] = v; n += 1;
+                        if !run(&b) && bad.len()<3 { bad.push(format!("byte {} = {}",pos,v)); }
+                    }
+                    let b = base[0..pos].to_vec(); n += 1;
+                    if !run(&b) && bad.len()<3 { bad.push(format!("truncated to {}",pos)); }
+                }
+                // RAM images: program pointers at and beyond the ends
+                if lang!="merlin" {
+                    for lo in [0usize,1,0x801,0x7fff,0x8000,0xbfff,0xc000,0xfffe,0xffff] {
+                        for hi in [0usize,1,0x801,0x7fff,0x8000,0xbfff,0xc000,0xffff] {
+                            for len in [0usize,0x7fff,0x8000,0xc000,0x10000] {
+                                let mut ram = vec![0u8;len];
+                                if len>204 {
+                                    ram[103] = (lo&255) as u8; ram[104] = (lo>>8) as u8; ram[202] = (lo&255) as u8; ram[203] = (lo>>8) as u8;
+                                    ram[76] = (hi&255) as u8; ram[77] = (hi>>8) as u8;
+                                    if lo+base.len() <= len { ram[lo..lo+base.len()].copy_from_slice(&base); }
+                                }
+                                n += 1;
+                                let ok = catch_unwind(AssertUnwindSafe(|| {
+                                    if lang=="applesoft" { let _ = a2kit::lang::applesoft::tokenizer::Tokenizer::new().detokenize_from_ram(&ram); }
+                                    else { let _ = a2kit::lang::integer::tokenizer::Tokenizer::new().detokenize_from_ram(&ram); }
+                                })).is_ok();
+                                if !ok && bad.len()<3 { bad.push(format!("ram image of {} bytes, program at {}, himem {}",len,lo,hi)); }
+                            }
+                        }
+                    }
+                }
+                if bad.is_empty() { format!("swept variants={}",n) } else { format!("PANICKED {}",bad.join("; ")) }
+            }).replacen("ok PANICKED","FAIL panic:",1)
+        },
         "random" => {
             let n = [0usize,1,11,12,13,29,64,100,143360,116480,232960,6656*35][rng.below(10)];
             let bytes: Vec<u8> = match rng.below(3) { 0 => vec![0;n], 1 => vec![0xff;n], _ => (0..n).map(|_| rng.below(256) as u8).collect() };
